@@ -3,10 +3,28 @@ import json, os
 ROOT = os.path.dirname(os.path.dirname(os.path.abspath(__file__)))
 props = [json.loads(l) for l in open(os.path.join(ROOT, "properties.jsonl")) if l.strip()]
 BOUNDED = "contracts of the property statement executed on the real public API over an enumerated input family (bounded stand-in, never counted as proved)"
+PV = "contract-based deductive verification (own VC generator over the real source, z3) + bounded stand-in"
 T = {
  "C01": ("proof", "Every function of formulae/parser.py (18; check/match/consume/listify inlined into their callers) is verified by pyvc against a contract transcribed from the documented grammar: the returned tree covers exactly the consumed token span (covers/size), is stratified by the documented precedence and left-associativity (strat), and Parser.parse consumes every token up to EOF - for token lists of any length, all obligations discharged by z3. Bounded tier: all strings over a 26-lexeme alphabet to length 4 (quick) / 5 (thorough) through the real scanner+parser with the same spec functions executed natively, whitespace variants, re-parse of the fully parenthesised form, must-reject list, random deep sentences.",
-         "pyvc encoder + z3; Python-semantics assumptions listed in the evidence; the scanner is covered by the bounded tier only; unambiguity of the stratified grammar is a spec-level lemma corroborated by re-parsing; termination of the mutual recursion not proved",
-         "contract-based deductive verification (own VC generator over the real source, z3) + bounded stand-in for the scanner"),
+         "pyvc encoder + z3; Python-semantics assumptions listed in the evidence; the scanner is covered by the bounded tier only; unambiguity of the stratified grammar is a spec-level lemma corroborated by re-parsing; termination of the mutual recursion not proved", PV),
+ "C10": ("proof", "Proved for all inputs: Config accepts exactly its documented key and values (4 functions); eval_new_data_categoric of Variable and Call implements the zero-row rule, raises iff a level is unseen in 'error' mode, warns iff 'warning', and leaves the stored contrast matrix untouched (fresh-write obligations); GroupSpecificTerm.eval_new_data keeps existing blocks (group indicator x effect, group slowest) and appends exactly one trailing block carrying the effect values of exactly the unseen rows; GroupEffectsMatrix.evaluate_new_data rebuilds contiguous slices from the new widths, names in factors_with_new_levels exactly the factors of the terms whose width changed (no repeats) and does not touch the training object. Bounded tier: 33 cases x placements x modes against a reference evaluation, 56 configuration stores.",
+         "assumed external contracts for numpy / scipy.khatri_rao / pd.Categorical listed in the evidence; term objects are read-only references whose eval_new_data is a pure function; GroupEffectsMatrix.__init__ assumed; prefix-sum lemma checked in Lean; floats as reals", PV),
+ "C11": ("proof", "Proved for any number of namespaces: VarLookupDict (first match wins, KeyError iff no namespace has the key, writes go to the private first dict), Environment.__init__/namespace/with_outer_namespace, Environment.capture (the frame env+reference+1 levels up provides locals then globals; ValueError iff the stack is shallower), LazyVariable.eval (data frame first, then the namespaces in order, KeyError otherwise - the composed lookup order), get_function_from_module (first namespace that has the head name, then successive getattr for dotted names). Bounded tier: every subset of {data, locals, globals, extra} x roles x name kinds x env 0..3 through nested callers on the real design_matrices.",
+         "namespaces are dicts of opaque values; frames, getattr and str.split are uninterpreted functions; the two glue sites Call.set_type (builtins first) and design_matrices (capture + extra_namespace) are covered by the bounded tier only", PV),
+ "C13": ("proof", "Proved for every number of levels and every reference / omitted level: entries, shapes and labels of Treatment.code_with_intercept / code_without_intercept and Sum._omit_index / _sum_contrast / code_without_intercept / code_with_intercept (indicator columns with the reference row zero, first level the default reference; sum columns with the omitted level -1, last level the default), ValueError iff the named level is absent, ContrastMatrix.__init__. Rank with the constant, zero column sums, C/T/S argument plumbing and invariance of the column space under coding swaps are checked by the bounded tier (n = 1..12 exhaustive, level permutations, 7 formula templates).",
+         "numpy externals assumed (eye, zeros, empty, vstack, column_stack, slicing, region writes); full rank / column space are linear-algebra consequences of the proved closed forms and are only checked numerically", PV),
+ "C17": ("proof", "Proved for any number of terms and any widths: CommonEffectsMatrix.evaluate and GroupEffectsMatrix.evaluate produce slices that start at zero, are contiguous in term order and exactly cover the stacked columns (prefix sums of the term widths); __getitem__ returns exactly that slice and raises ValueError iff the name is unknown; GroupEffectsMatrix.evaluate_new_data rebuilds the slices from the new widths without touching the training object; CommonEffectsMatrix.evaluate_new_data keeps them (given unchanged widths); GroupSpecificTerm.eval_new_data widths. Data-frame / numpy / tuple views, label uniqueness, row counts and printing are checked by the bounded tier (25 formulas x training + 4 derived objects).",
+         "term objects are read-only references; the constructors' dict comprehension is an assumed contract; np.column_stack layout assumed; prefix-sum lemma checked in Lean; key order of the slices dict not modelled", PV),
+}
+FRAG = {
+ "C04": "Proved fragments: Treatment closed forms and labels (all n, any reference); get_interaction_matrix result[r, a*ny+b] = x[r,a]*y[r,b] for all shapes; group block layout in GroupSpecificTerm.eval_new_data.",
+ "C05": "Proved fragments: block structure Z[r, g*p+l] = J[r,g]*X[r,l] (group slowest) and the trailing new-group block of GroupSpecificTerm.eval_new_data; get_interaction_matrix.",
+ "C06": "Proved fragments (write-once fitted state, row locality): Center/Scale.__call__ freeze mean/std after the first call and apply the same affine map; BSpline.__call__ never re-initialises; LazyCall.eval creates the transform instance once; Polynomial.__init__ allocates fresh memo dicts; eval_new_data_categoric indexes the remembered contrast rows.",
+ "C07": "Proved fragments (per-call frames): fresh-write obligations (in-place numpy writes only on arrays allocated in the activation) in eval_new_data_categoric, GroupSpecificTerm.eval_new_data, BSpline.eval, Sum._sum_contrast; frame obligations (unlisted fields unchanged) on every function under contract; write-once state as in C06; Config stores.",
+ "C12": "Proved fragments: operator tables of CallResolver / LazyOperator (table obligations); LazyValue.eval; parser precedence facts come from C01.",
+ "C14": "Proved fragments: Center/Scale affine map with frozen parameters; BSpline.eval column count = len(knots) - order - [no intercept]; BSpline.__call__ write-once; Polynomial.__init__ fresh state.",
+ "C15": "Proved fragments: Proportion.__init__ validation (raises iff a non-integer or successes > trials exists) and Proportion.eval two columns.",
+ "C16": "Proved fragments: binary (indicator of the given / smallest value, ValueError iff the given value never occurs), Proportion.__init__ / eval, TRANSFORMS alias table (table obligation).",
 }
 DEFAULT_NOTE = "bounded: the stated input family only; numeric comparisons to tolerance; no deductive obligations are counted for this property yet"
 SUMMARY = {
@@ -33,17 +51,20 @@ for p in props:
     if pid in T:
         cat, text, note, tech = T[pid]
     else:
-        cat, text, note, tech = "exploration", "Bounded stand-in: " + SUMMARY[pid] + ". " + BOUNDED + ".", DEFAULT_NOTE, "runtime-checked contracts over enumerated inputs (bounded stand-in of the contract-based family)"
+        frag = FRAG.get(pid)
+        text = ((frag + " The property as a whole is decided by the bounded stand-in: ") if frag else "Bounded stand-in: ") + SUMMARY[pid] + ". " + BOUNDED + "."
+        cat, note = "exploration", (DEFAULT_NOTE if not frag else "the deductive obligations listed in the evidence are discharged for all inputs but do not by themselves decide the property; the deciding step is bounded (stated input family, numeric tolerances)")
+        tech = ("runtime-checked contracts over enumerated inputs (bounded stand-in)" + (" + discharged pyvc obligations on fragments" if frag else ""))
     checks.append({"property_id": pid, "quick_cmd": f"./check {pid} --tier quick", "thorough_cmd": f"./check {pid} --tier thorough",
                    "evidence_file": f"evidence/{pid}.json", "replay_cmd_template": f"./check {pid} --replay {{path}}",
-                   "engine": "pyvc+rtc" if cat == "proof" else "rtc",
+                   "engine": "pyvc+rtc" if (cat == "proof" or pid in FRAG) else "rtc",
                    "level_claimed": {"category": cat, "text": text, "design_ref": f"DESIGN.md section 4, {pid}"},
                    "level_note": note, "technique": tech})
 man = {"version": 1, "setup_cmd": "./setup.sh",
        "hooks": {"guard": "FORMULAE_VERIF", "enable": "no source hooks: contracts are sidecar files under /verif/vf/contracts attached in the checker's own process; formulae is installed editable so every check reads /repo's working tree",
                  "baseline_off_cmd": "cd /repo && /venv/bin/python -m pytest -ra -q -p no:cacheprovider --timeout=900 --continue-on-collection-errors",
                  "source_commits": [], "add_only": True},
-       "engines": [{"name": "pyvc", "path": "vf/pyvc", "serves_properties": sorted(k for k in T), "kind_free_text": "own verification-condition generator: symbolic execution of the real /repo source (python ast) against sidecar contracts, loops cut by invariants, calls by contract, spec functions as z3 recursive functions with definitional unfolding, obligations discharged by z3"},
+       "engines": [{"name": "pyvc", "path": "vf/pyvc", "serves_properties": sorted(set(T) | set(FRAG)), "kind_free_text": "own verification-condition generator: symbolic execution of the real /repo source (python ast) against sidecar contracts, loops cut by invariants, calls by contract, spec functions as z3 recursive functions with definitional unfolding, obligations discharged by z3"},
                    {"name": "rtc", "path": "vf/rtc + vf/props", "serves_properties": [p["id"] for p in props], "kind_free_text": "contracts / spec functions executed on the real functions over enumerated inputs (bounded stand-in)"}],
        "checks": checks, "not_applicable": [],
        "notes": "DESIGN.md explains the approach; known_findings.jsonl lists repaired defects (fixed:) and recorded findings; known/*.json.gz list the specific failing inputs of the list-based findings; seeded/ holds independently produced property-breaking patches used to test the checks"}
